@@ -87,12 +87,28 @@ def scoped(ns, name, value, content):
     foreign = '<f xmlns:rb="urn:x-foreign" rb:note="kept">w</f>'
     stmt = '<e%s xmlns:rb="%s" rb:%s="%s">%s</e>' % (title, URI[ns], name, value, innerr)
     ref = '<e%s %s:%s="%s">%s</e>' % (title, ns, name, value, inner)
-    return {
+    own = '%s="%s"' % (name, value) if ns == 'tal' else '%s:%s="%s"' % (ns, name, value)
+    nsel = '<z><tal:e %s>%s</tal:e></z>' % (own, inner)
+    extra = {
+        # an element OF a template namespace whose prefix is declared on the element itself: the
+        # declaration is in force for the element's own name
+        'ns-element-self-declared': ('<z><rb:e xmlns:rb="%s" %s>%s</rb:e></z>' % (URI['tal'], own, innerr.replace('rb:', 'tal:') if ns != 'tal' else inner), nsel),
+    }
+    if '%(p)s' not in content:
+        # ... or made the default namespace on the element itself
+        extra['ns-element-default-declared'] = ('<z><e xmlns="%s" %s>%s</e></z>' % (URI['tal'], own, inner), nsel)
+    extra['foreign-element-self-declared'] = (
+        '<z><tal:x xmlns:tal="urn:x-foreign" k="v">w</tal:x></z>', None, '<tal:x xmlns:tal="urn:x-foreign" k="v">')
+    if name not in ('replace', 'use-macro'):      # (these do not render the element's own tag)
+      extra['uri-valued-attribute'] = (
+        '<z><e href="%s" %s:%s="%s">%s</e></z>' % (URI[ns], ns, name, value, inner), None, ' href="%s"' % URI[ns])
+    return dict(extra, **{
         'rebound-after-foreign': ('<z>%s%s</z>' % (foreign, stmt), '<z>%s%s</z>' % (foreign, ref)),
         'foreign-after-rebound': ('<z>%s%s</z>' % (stmt, foreign), '<z>%s%s</z>' % (ref, foreign)),
         # the default prefix itself re-bound to a foreign URI further down: that attribute is ordinary
-        'default-prefix-rebound': ('<z>%s<f xmlns:%s="urn:x-foreign" %s:note="kept">w</f></z>' % (ref, ns, ns), None),
-    }
+        'default-prefix-rebound': ('<z>%s<f xmlns:%s="urn:x-foreign" %s:note="kept">w</f></z>' % (ref, ns, ns), None,
+                                   ' %s:note="kept"' % ns),
+    })
 
 
 EXTRA = ('data+foreign-data', 'dup-static', 'data+prefixed', 'ns-element', 'ns-element+omit',
@@ -137,24 +153,27 @@ def unit(spec):
         schemas.append({'id': '%s|default+data-option' % sid, 'text': text,
                         'options': {'enable_data_attributes': True}})
     for sid, ns, name, value, content in STATEMENTS:
-        for sp, (text, reftext) in scoped(ns, name, value, content).items():
+        for sp, tup in scoped(ns, name, value, content).items():
+            text, reftext = tup[0], tup[1]
             schemas.append({'id': '%s|%s' % (sid, sp), 'text': text, 'options': {}})
             if reftext is not None:
                 schemas.append({'id': '%s|%s|ref' % (sid, sp), 'text': reftext, 'options': {}})
     compiled = k3.compile_schemas(schemas)
     obls = []
     for sid, ns, name, value, content in STATEMENTS:
-        for sp, (text, reftext) in scoped(ns, name, value, content).items():
+        for sp, tup in scoped(ns, name, value, content).items():
+            text, reftext = tup[0], tup[1]
             got = compiled['%s|%s' % (sid, sp)]
             if reftext is None:
                 if 'source' not in compiled['%s|default' % sid]:
                     continue        # the statement itself is rejected in every spelling
-                # the attribute with the re-bound prefix is an ordinary one: it is preserved as written
-                want = ' %s:note="kept"' % ns
+                # ordinary markup (a prefix re-bound to a foreign namespace, an attribute whose VALUE
+                # happens to be a template namespace URI) is preserved as written
+                want = tup[2]
                 ok = 'source' in got and any(want in l for l in literals(got['source']))
                 detail = {'template': text, 'expected_in_output': want,
                           'compile_error': got.get('error'), 'message': got.get('message')}
-                what = 'an attribute whose prefix %s: is re-bound to a foreign namespace is preserved' % ns
+                what = 'markup that only looks like template-language markup is preserved as written (%s)' % sp
             else:
                 base = compiled['%s|%s|ref' % (sid, sp)]
                 if 'source' not in base:
